@@ -53,6 +53,7 @@ static void mode_enc(void){
     for(int k=0;k<n2;k++){ if(vc_chance(&r,1,6)) fidx=vc_below(&r,9); int fs=vk_frame_samples(Fs,fidx); vs_fill(&g2,f,fs);
       int la=opus_encode_float(X,f,fs,pa,1500); paint_stack(ppat^0x3C); int lb=opus_encode_float(F,f,fs,pb,1500); vc_count("enc_reset_pairs",1);
       opus_uint32 ra=0,rb=0; opus_encoder_ctl(X,OPUS_GET_FINAL_RANGE(&ra)); opus_encoder_ctl(F,OPUS_GET_FINAL_RANGE(&rb));
+      if(getenv("C12_DEBUG")){ opus_int32 v1=-9,v2=-9,b1=0,b2=0; opus_encoder_ctl(X,11019,&v1); opus_encoder_ctl(F,11019,&v2); opus_encoder_ctl(X,OPUS_GET_BANDWIDTH(&b1)); opus_encoder_ctl(F,OPUS_GET_BANDWIDTH(&b2)); fprintf(stderr,"post-reset frame %d fs=%d: reset len %d toc %02x rng %08x voice_ratio %d bw %d | fresh len %d toc %02x rng %08x voice_ratio %d bw %d\n",k,fs,la,pa[0],ra,v1,b1,lb,pb[0],rb,v2,b2); }
       if(la!=lb||(la>0&&memcmp(pa,pb,la))||ra!=rb){ /* diagnostic: did a getter drift from what the user set? */
         opus_int32 fcX=0,fcF=0,brX=0,brF=0,bwX=0,bwF=0; opus_encoder_ctl(X,OPUS_GET_FORCE_CHANNELS(&fcX)); opus_encoder_ctl(F,OPUS_GET_FORCE_CHANNELS(&fcF)); opus_encoder_ctl(X,OPUS_GET_BITRATE(&brX)); opus_encoder_ctl(F,OPUS_GET_BITRATE(&brF)); opus_encoder_ctl(X,OPUS_GET_MAX_BANDWIDTH(&bwX)); opus_encoder_ctl(F,OPUS_GET_MAX_BANDWIDTH(&bwF));
         vc_viol(fcX!=fcF||bwX!=bwF?"enc:reset-differs:setting-changed-behind-user":"enc:reset-differs","frame %d after OPUS_RESET_STATE: reset object gives len %d range %08x toc %02x, new object with the same %d ctl calls gives len %d range %08x toc %02x (Fs=%d ch=%d app=%d; force_channels %d/%d bitrate %d/%d) hist=%s",k,la,ra,pa[0],nctl,lb,rb,pb[0],Fs,ch,app,fcX,fcF,brX,brF,hist); free(F); goto out; } }
